@@ -38,19 +38,23 @@ def _mp_case(prob, k, v, schedule_fn, mode, rng, die=None, timeouts=None):
     # the workers run at start(); to know the message counts we need a first pass: run the workers on clones
     clones = [nv.Cfg().solver(q) for q in p.split(k, v)]
     counts = []
+    streams = []
     for i, c in enumerate(clones):
         class _Q:
             def __init__(self):
                 self.n = 0
+                self.items = []
 
             def put(self, item):
                 self.n += 1
+                self.items.append((None if item[1] is None else [int(x) for x in item[1]], [int(x) for x in item[2]]))
         q = _Q()
         if mode == "solve":
             c.solve_and_queue(i, q)
         else:
             (c.minimize_and_queue if mode[0] == "min" else c.maximize_and_queue)(mode[1], i, q)
         counts.append(q.n if not die or i not in die else min(q.n, die[i]))
+        streams.append(q.items)
     script.schedule = schedule_fn(counts)
     try:
         if mode == "solve":
@@ -75,7 +79,30 @@ def _mp_case(prob, k, v, schedule_fn, mode, rng, die=None, timeouts=None):
     req = f"mp {mode_s} {kk} {';'.join(ins) if ins else '-'}"
     sols = ";".join(nv.enc_ints(s) for s in yielded) if yielded else "-"
     impl = f"? {sols} {'none' if best is None else nv.enc_ints(best)} {1 if raised else 0} {agg}"
-    return impl, req, {"counts": counts, "yielded": yielded, "best": best, "raised": raised, "k": kk}
+    part_shr = [[tuple(int(x) for x in d) for d in q.shr_domains_lst] for q in p.split(k, v)]
+    return impl, req, {"counts": counts, "yielded": yielded, "best": best, "raised": raised, "k": kk, "streams": streams,
+                       "part_shr": part_shr}
+
+
+def worker_stream_reqs(prob, mode, info):
+    """the hypothesis of the end-to-end theorems (C11_end_to_end_solve / _optimize): worker i's stream is what the model's
+    solveAll / optimize returns on the i-th part.  Returns [(model request, implementation line, description)]."""
+    out = []
+    cfg = nv.Cfg()
+    for i, (shr, items) in enumerate(zip(info["part_shr"], info["streams"])):
+        if not items or items[-1][0] is not None:
+            continue
+        part = nv.Prob(shr, prob.idx, prob.off, prob.props)
+        sols = [it[0] for it in items[:-1]]
+        fin = items[-1][1]
+        if mode == "solve":
+            req = f"solve {part.enc()} {cfg.enc(part)} 1000000"
+            impl = f"{';'.join(nv.enc_ints(s_) for s_ in sols) if sols else '-'} {nv.enc_ints(fin)}"
+        else:
+            req = f"opt {part.enc()} {cfg.enc(part)} {mode[1]} {'min' if mode[0] == 'min' else 'max'}"
+            impl = f"{'none' if not sols else nv.enc_ints(sols[-1])} {nv.enc_ints(fin)}"
+        out.append((req, impl, {"worker": i, "part": shr}))
+    return out
 
 
 def compare(impl, ans):
@@ -97,6 +124,7 @@ def run(ctx):
     report = ctx["report"]
     rng = random.Random(ctx["seed"] + 1101)
     viol, corr, reqs = [], [], []
+    sub_reqs = []
     n = 25 if ctx["tier"] == "quick" else 400
     per = 12 if ctx["tier"] == "quick" else 60
     done = 0
@@ -119,6 +147,8 @@ def run(ctx):
             if "skipped" not in str(info0.get("hang")):
                 viol.append({"problem": prob.to_json(), "k": k, "v": v, "mode": mode, "kind": "mp-hang", "detail": "the multiprocessing call did not return: " + str(info0.get("hang"))})
             continue
+        for q_, i_, d_ in worker_stream_reqs(prob, mode, info0):
+            sub_reqs.append((q_, i_, dict({"problem": prob.to_json(), "k": k, "v": v, "mode": mode}, **d_)))
         ils = mpfake.interleavings(info0["counts"], limit=per, rng=rng)
         report.count("workers", info0["k"])
         report.count("messages", sum(info0["counts"]))
@@ -148,7 +178,6 @@ def run(ctx):
     # optimum, and each worker's stream must end with what the model's `optimize` returns on that sub-problem
     import oracle
     n_opt = 60 if ctx["tier"] == "quick" else 1500
-    sub_reqs = []
     done = 0
     while done < n_opt:
         prob, theme = ce.gen_problem(rng)
@@ -177,12 +206,21 @@ def run(ctx):
                 if target is not None:
                     report.nontrivial(req)
                 reqs.append((req, impl, case))
+                for q_, i_, d_ in worker_stream_reqs(prob, (direction, ov), info):
+                    sub_reqs.append((q_, i_, dict(case, **d_)))
     answers = nv.Model().ask([q for q, _, _ in reqs])
     for (q, impl, case), ans in zip(reqs, answers):
         if not compare(impl, ans):
             corr.append(dict(case, implementation=impl, model=ans))
         report.sample({"request": q[:300], "implementation": impl[:200], "model": ans[:200]}, cap=3)
-    report.cov["traces_validated_against_impl"] = len(reqs)
+    # the workers' streams against the model's search on the parts (hypothesis hW of the end-to-end theorems)
+    sub_answers = nv.Model().ask([q for q, _, _ in sub_reqs])
+    for (q, impl, case), ans in zip(sub_reqs, sub_answers):
+        report.cov["evaluations"] += 1
+        if impl != ans:
+            corr.append(dict(case, kind="worker-stream", implementation=impl[:300], model=ans[:300]))
+    report.count("worker_streams_compared", None, len(sub_reqs))
+    report.cov["traces_validated_against_impl"] = len(reqs) + len(sub_reqs)
     report.cov["rule"] = ("generated problems split into 1-3 sub-problems; the REAL MultiprocessingSolver.solve/minimize/maximize parent loop is driven "
                           "in-process through a scripted Queue/Process (module globals rebound) with the real worker methods producing the "
                           "messages; for each case up to N interleavings of the workers' streams (all of them when few) are delivered; yielded "
